@@ -932,6 +932,12 @@ class Flattener(object):
             pass
         node.body = self.lower_comprehensions(node.body)
         node.body = self.rewrite_block(node.body, self.fi.cls, [self.fi.key])
+        # a closure all of whose uses were inlined is dead: remove its definition (its `return`s are not the function's)
+        for name in list(self.local_defs):
+            used = any(isinstance(n, ast.Name) and n.id == name for st in node.body if not (isinstance(st, ast.FunctionDef) and st.name == name)
+                       for n in ast.walk(st))
+            if not used and any(k.endswith('.<locals>.' + name) for k in self.inlined):
+                node.body = [st for st in node.body if not (isinstance(st, ast.FunctionDef) and st.name == name)] or [ast.Pass()]
         # inlining exposes new sugar (a helper that was `return any(...)`): one more desugaring round
         before = self.desugared
         node.body = self.desugar(node.body)
